@@ -56,7 +56,7 @@ def classify(doc, prep, o):
 def run_shard(ctx):
     d = drive.Driver(ctx, feat, flags="random", styles=("tiny", "tiny", "dups", "regs"), quirks=QUIRKS, classify=classify,
                      accept=reuses_capture, interesting=reuses_capture)
-    d.loop(3000, 70000)
+    d.loop(3500, 300000)
 
 
 def replay(ctx, case):
